@@ -29,7 +29,8 @@ def SegOK (S : List Tree) (acc : FExpr) (o : BinOp) : Prop :=
 
 theorem hasChildren_of_repF {x : Tree} {e : FExpr} (h : RepF x e) : x.hasChildren = true := by
   cases h with
-  | num _ hc _ => exact hc
+  | num _ hc _ _ => exact hc
+  | pct _ _ _ => rfl
   | fact _ hc _ => exact hc
   | paren hk _ => exact node_hasChildren hk
   | chain hk _ _ _ _ => exact node_hasChildren hk
